@@ -12,7 +12,14 @@ HEAD=$(git -C /repo rev-parse HEAD)
 if [ ! -d $R/repo ]; then git -C /repo worktree add --detach $R/repo $HEAD -q || exit 9; fi
 git -C $R/repo checkout -q -- . ; git -C $R/repo checkout -q --detach $HEAD || exit 9
 cp /repo/rust/Cargo.lock $R/repo/rust/Cargo.lock
-rsync -a --delete --exclude 'replays/*.json' --exclude '.git' /verif/ $R/verif/
+# VERIF_SRC: run the checks of another copy of /verif (e.g. an export of an earlier commit, to see
+# what the checks "as they stood" do with a seed); its build output is kept from the previous run
+SRC=${VERIF_SRC:-/verif}
+if [ "$SRC" = "/verif" ]; then
+  rsync -a --delete --exclude 'replays/*.json' --exclude '.git' /verif/ $R/verif/
+else
+  rsync -a --delete --exclude 'replays/*.json' --exclude '.git' --exclude 'harness/target' $SRC/ $R/verif/
+fi
 sed -i "s#path = \"/repo/rust\"#path = \"$R/repo/rust\"#" $R/verif/harness/Cargo.toml
 git -C $R/repo apply /verif/seeded/$ID/patch.diff || { echo "patch does not apply"; exit 9; }
 cd $R/verif
